@@ -144,27 +144,29 @@ struct ElemIO<std::pair<A, B>, false> {
   }
 };
 
-/// A container of the library as element type: an inline SmallVector holding one identity-recording element (or none for the
-/// value (0, 0)).  Whether the outer vector may move it by raw byte copy is decided by the library's own trait for it.
+/// A container of the library as element type: an inline SmallVector holding one inner element (or none for the value (0, 0)).
+/// Whether the outer vector may move it by raw byte copy is decided by the library's own trait for it.  The inner element is an
+/// identity-recording type (ledger) or a std::string (short-string self-pointer: a wrongly byte-copied one reads another value).
 template <class E, class Al, class Sz, class Pol, Sz N>
 struct ElemIO<amc::Vector<E, Al, Sz, Pol, N>, false> {
   typedef amc::Vector<E, Al, Sz, Pol, N> T;
-  static const bool hooks = true;
+  typedef ElemIO<E> In;
+  static const bool hooks = In::hooks;
   static const bool arith = true;  // no member-argument emplace forms
-  static const int ledgerMode = 2;
+  static const int ledgerMode = In::hooks ? 2 : 0;
   static T make(const Val &x) {
     T t;
-    if (x.key != 0 || x.pay != 0) t.emplace_back(x.key, x.pay);
+    if (x.key != 0 || x.pay != 0) t.push_back(In::make(x));
     return t;
   }
   static Val val(const T &e) {
     if (e.empty()) return Val{0, 0};
     if (e.size() != 1) return Val{-4, -4};
-    return Val{e.front().k(), e.front().p()};
+    return In::val(e.front());
   }
-  static int state(const T &e) { return e.empty() ? (int)ES_ALIVE : E::state_of(e.front()); }
-  template <class V> static T &emplace_back(V &v, const Val &x) { return (x.key || x.pay) ? v.emplace_back((Sz)1, E(x.key, x.pay)) : v.emplace_back(); }
-  template <class V, class It> static typename V::iterator emplace(V &v, It pos, const Val &x) { return (x.key || x.pay) ? v.emplace(pos, (Sz)1, E(x.key, x.pay)) : v.emplace(pos); }
+  static int state(const T &e) { return e.empty() ? (int)ES_ALIVE : In::state(e.front()); }
+  template <class V> static T &emplace_back(V &v, const Val &x) { return (x.key || x.pay) ? v.emplace_back((Sz)1, In::make(x)) : v.emplace_back(); }
+  template <class V, class It> static typename V::iterator emplace(V &v, It pos, const Val &x) { return (x.key || x.pay) ? v.emplace(pos, (Sz)1, In::make(x)) : v.emplace(pos); }
   template <class V, class It> static typename V::iterator emplace_member(V &v, It pos, const T &, int) { return v.end() + 0 * (pos - pos); }
   template <class V> static T &emplace_back_member(V &v, const T &, int) { return v.back(); }
 };
